@@ -1,10 +1,16 @@
 package main
 
 import (
+	"bufio"
 	"bytes"
 	"encoding/base64"
+	"fmt"
+	"io"
+	"net"
 	"strings"
 	"sync"
+	"sync/atomic"
+	"time"
 
 	"github.com/lrstanley/girc"
 )
@@ -41,5 +47,97 @@ func init() {
 			}
 		}
 		c.R.Count("dropped/"+in["pass"], true, "sensitive-dropped")
+	}
+}
+
+// C09, secrets on the FAILED-WRITE path: the socket write fails exactly while a credential-bearing line is being
+// written (PASS, the SASL payload, OPER); whatever the client then logs about the failure must not contain the secret.
+type faultConn struct {
+	net.Conn
+	trigger string
+	fired   int32
+}
+
+func (f *faultConn) Write(p []byte) (int, error) {
+	if strings.Contains(string(p), f.trigger) {
+		atomic.StoreInt32(&f.fired, 1)
+		f.Conn.Close()
+		return 0, io.ErrClosedPipe
+	}
+	return f.Conn.Write(p)
+}
+
+func init() {
+	runners["sensitivefault"] = func(c *Ctx, in map[string]string) {
+		hin := hexIn(in)
+		pass := in["pass"]
+		var dbg, out syncBuf
+		cfg := girc.Config{Server: "irc.example.org", Port: 6667, Nick: "me", User: "me", Name: "me", AllowFlood: true, Debug: &dbg, Out: &out}
+		trigger := ""
+		switch in["at"] {
+		case "pass":
+			cfg.ServerPass = pass
+			trigger = "PASS "
+		case "sasl":
+			cfg.SASL = &girc.SASLPlain{User: "acct", Pass: pass}
+			trigger = "AUTHENTICATE " + base64.StdEncoding.EncodeToString([]byte("acct\x00acct\x00" + pass))[:8]
+		case "oper":
+			trigger = "OPER "
+		case "webirc":
+			cfg.WebIRC = girc.WebIRC{Password: pass, Gateway: "gw", Hostname: "host", Address: "1.2.3.4"}
+			trigger = "WEBIRC "
+		}
+		cl := girc.New(cfg)
+		if in["at"] == "oper" {
+			cl.Handlers.Add(girc.RPL_WELCOME, func(c *girc.Client, e girc.Event) { c.Cmd.Oper("admin", pass) })
+		}
+		cli, srv := net.Pipe()
+		fc := &faultConn{Conn: cli, trigger: trigger}
+		go func() { // scripted peer
+			rd := bufio.NewReader(srv)
+			for {
+				l, err := rd.ReadString('\n')
+				if err != nil {
+					return
+				}
+				l = strings.TrimRight(l, "\r\n")
+				srv.SetWriteDeadline(time.Now().Add(2 * time.Second))
+				switch {
+				case strings.HasPrefix(l, "CAP LS"):
+					srv.Write([]byte(":srv CAP * LS :multi-prefix sasl=PLAIN\r\n"))
+				case strings.HasPrefix(l, "CAP REQ"):
+					srv.Write([]byte(":srv CAP * ACK :" + strings.TrimPrefix(l, "CAP REQ :") + "\r\n"))
+				case l == "AUTHENTICATE PLAIN":
+					srv.Write([]byte("AUTHENTICATE +\r\n"))
+				case l == "CAP END":
+					srv.Write([]byte(":srv 001 me :Welcome\r\n"))
+				}
+			}
+		}()
+		ret := make(chan error, 1)
+		go func() { ret <- cl.MockConnect(fc) }()
+		var err error
+		select {
+		case err = <-ret:
+		case <-time.After(8 * time.Second):
+			cl.Close()
+			srv.Close()
+			c.R.Mismatch("sensitivefault.no_return", hin, "Connect did not return within 8 s of the failed write", "")
+			return
+		}
+		srv.Close()
+		if atomic.LoadInt32(&fc.fired) == 0 {
+			c.R.Mismatch("sensitivefault.not_fired", hin, "the credential-bearing line was never written", fmt.Sprint(err))
+			return
+		}
+		time.Sleep(20 * time.Millisecond)
+		log := dbg.String() + "\n" + out.String()
+		plain := "acct\x00acct\x00" + pass
+		for _, sec := range []string{pass, base64.StdEncoding.EncodeToString([]byte(pass)), base64.StdEncoding.EncodeToString([]byte(plain))} {
+			if sec != "" && strings.Contains(log, sec) {
+				c.R.Violation("c09.secret_in_debug_failed_write", hin, q(sec), "", "a secret (or its base64) appears in the Debug/Out writers after the write of the "+in["at"]+" line failed")
+			}
+		}
+		c.R.Count("fault/"+in["at"]+"/"+pass, true, "sensitive-failed-write")
 	}
 }
